@@ -91,7 +91,7 @@ def run(module, cfg=None, *, workers=1, env=None, simulate=None, depth=None, see
 
 def must_ok(res, what):
     """TLC finished without machinery error (rc 0 or a property violation rc 12)."""
-    if res.rc not in (0, 12):
+    if res.rc not in (0, 12, 13):
         tail = "\n".join(res.out.splitlines()[-40:])
         raise MachineryError("%s: TLC exit %s\n%s" % (what, res.rc, tail))
     return res
